@@ -105,9 +105,35 @@ Fixpoint sf_run (fuel : nat) (f : sfile) (ops : list fop) : list fres * sfile :=
 Definition final_content (fuel : nat) (f : sfile) : list Z :=
   s_content (strm (snd (bf_close s_write fuel f))).
 
-(* ---- the fragment on which refinement is proved: calls that neither write nor resize ---- *)
+(* ---- the fragments on which refinement is proved ---- *)
+(* (1) calls that neither write nor resize (static condition) *)
 Definition read_only_op (o : fop) : bool :=
   match o with FRead _ | FReadline _ | FSeek _ _ | FTell => true | _ => false end.
+
+(* (2) the disciplined fragment (stdio discipline, stated on the state the call meets):
+   read / readline / tell only with an empty write buffer, write only with an empty read buffer
+   (i.e. a seek or flush separates writes from reads and a seek separates reads from writes),
+   seek and flush anywhere, truncate only as the last call, on a writable file with nothing
+   pending.  The first conjunct only says that `fuel` suffices for the model's loops. *)
+Definition guard (fuel : nat) (f : sfile) (o : fop) : bool :=
+  Nat.ltb (length (s_content (strm f)) + length (wbuf f)
+           + match o with FWrite d => length d | _ => O end) fuel &&
+  match o with
+  | FRead _ | FReadline _ | FTell => is_nil (wbuf f)
+  | FWrite _ => is_nil (rbuf f)
+  | FSeek _ _ | FFlush => true
+  | FReadlines | FTruncate _ => false
+  end.
+
+Fixpoint guarded (fuel : nat) (f : sfile) (ops : list fop) : bool :=
+  match ops with
+  | [] => Nat.ltb (length (wbuf f)) fuel
+  | o :: r =>
+      match o, r with
+      | FTruncate n, [] => is_nil (wbuf f) && fl_write f && (0 <=? n)
+      | _, _ => guard fuel f o && guarded fuel (snd (sf_step fuel f o)) r
+      end
+  end.
 
 (* ---- correspondence ---------------------------------------------------------------------- *)
 Definition op_fuel (ops : list fop) : nat :=
@@ -126,4 +152,12 @@ Definition run_c27 (c : Z * Z * (bool * list Z) * list fop) : list Z :=
       let fuel := (length init + op_fuel ops + 4)%nat in
       let '(rs, f) := sf_run fuel f0 ops in
       flat_map canon_fres rs ++ [-1] ++ final_content fuel f
+  end.
+
+(* does the program stay inside the disciplined fragment?  ([1] / [0]; [-9] = open raises) *)
+Definition run_c27_guard (c : Z * Z * (bool * list Z) * list fop) : list Z :=
+  let '(k, bufsz, (ex, init), ops) := c in
+  match sf_open (fmode_of k) bufsz (if ex then Some init else None) with
+  | None => [-9]
+  | Some f0 => [if guarded (length init + op_fuel ops + 4)%nat f0 ops then 1 else 0]
   end.
